@@ -282,6 +282,19 @@ impl Check for C04 {
             rc.cfg.capacity = io::gen_capacity(&mut rng, rc.input.len());
             crate::harness::gen_cfg_history(&mut rng, &mut rc.cfg);
             rc.script = io::gen_rscript(&mut rng, rc.input.len(), &bounds);
+            if rc.input.len() > 20_000 && rng.chance(1, 2) {
+                // long streams: buffers of a few KiB up to the default, reads of a few thousand bytes (neither tiny nor whole)
+                rc.cfg.capacity = *rng.pick(&[None, None, Some(4096), Some(8192), Some(20_000), Some(32_768)]);
+                let lo = *rng.pick(&[1000usize, 3000, 5000]);
+                let mut total = 0;
+                rc.script.chunks.clear();
+                while total < rc.input.len() && rc.script.chunks.len() < 4096 {
+                    let k = rng.range(lo, 3 * lo);
+                    rc.script.chunks.push(k);
+                    total += k;
+                }
+                rc.script.rest = 0;
+            }
             let sub = rng.below(10);
             if sub == 0 {
                 // Interrupted sub-batch
